@@ -81,15 +81,15 @@ inductive SegTrace (S : Scheduler σ) (me : Nat) : ExecState P σ → Prog P.U U
   /-- the closure returned (and this task is not the one unwinding) -/
   | ret (st : ExecState P σ) :
       SegTrace S me st (.pure ()) (.returned { st with conts := st.conts.set me (.pure ()) })
-  /-- the unwinding task has run all its destructors: the panic reaches `catch_unwind` -/
-  | retPanicking (st : ExecState P σ) (msg : String) : st.k.panicking = some (me, msg) →
-      SegTrace S me st (.pure ()) (.panicked msg st)
-  /-- panic while panicking -/
-  | abort (st : ExecState P σ) (msg : String) : st.k.panicking.isSome = true →
-      SegTrace S me st (.panic msg) (.aborted msg st)
-  /-- a panic starts unwinding: the task goes on with its destructors `P.unwind me` -/
-  | unwind (st : ExecState P σ) (msg : String) (e : SegEnd P σ) : st.k.panicking = none →
-      SegTrace S me { st with k := { st.k with panicking := some (me, msg) } } (P.unwind me) e →
+  /-- an unwinding task has run all its destructors: its panic reaches `catch_unwind` -/
+  | retPanicking (st : ExecState P σ) (msg : String) : SegTrace S me st (.pure ()) (.panicked msg st)
+  /-- panic in a destructor during this task's own unwinding -/
+  | abort (st : ExecState P σ) (msg : String) : SegTrace S me st (.panic msg) (.aborted msg st)
+  /-- a panic starts unwinding: the panic bookkeeping (`panicking`, `alsoPanicking`) is updated and the task
+  goes on with its destructors `P.unwind me` -/
+  | unwind (st : ExecState P σ) (msg : String) (pk : Option (Nat × String)) (apk : List (Nat × String))
+      (e : SegEnd P σ) :
+      SegTrace S me { st with k := { st.k with panicking := pk, alsoPanicking := apk } } (P.unwind me) e →
       SegTrace S me st (.panic msg) e
   | halt {β : Type} (o : KOp P.U β) (kont : β → Prog P.U Unit) (st : ExecState P σ) (e : SegEnd P σ) :
       SegHalt S me o kont st e → SegTrace S me st (.op o kont) e
@@ -233,22 +233,15 @@ theorem runSegment_trace (S : Scheduler σ) (me : Nat) :
   | 0, st, p => by rw [runSegment]; exact SegTrace.fuel st p
   | fuel + 1, st, .pure () => by
     rw [runSegment]
-    split
-    · rename_i t msg hp
-      split
-      · rename_i ht
-        have : t = me := by simpa using ht
-        subst this
-        exact SegTrace.retPanicking st msg hp
-      · exact SegTrace.ret st
-    · exact SegTrace.ret st
+    repeat' split
+    all_goals first | exact SegTrace.ret st | exact SegTrace.retPanicking st _
   | fuel + 1, st, .panic msg => by
     rw [runSegment]
     split
-    · rename_i x hp
-      exact SegTrace.abort st msg (by rw [hp]; rfl)
-    · rename_i hp
-      exact SegTrace.unwind st msg _ hp (runSegment_trace S me fuel _ (P.unwind me))
+    · split
+      · exact SegTrace.abort st msg
+      · exact SegTrace.unwind st msg st.k.panicking _ _ (runSegment_trace S me fuel _ (P.unwind me))
+    · exact SegTrace.unwind st msg _ st.k.alsoPanicking _ (runSegment_trace S me fuel _ (P.unwind me))
   | fuel + 1, st, .op o kont => by
     rcases runSegment_op S me fuel st o kont with ⟨b, st', hs, he⟩ | hh
     · rw [he]
